@@ -59,8 +59,9 @@ Qed.
 End Streams.
 
 (* ---------- set operations ---------- *)
-(* union / intersection / symmetric difference: any heap tie-break, any streams (sorted or
-   not), any number of next calls that return *)
+(* union / intersection / symmetric difference: any heap tie-break, any input streams (sorted or
+   not, inert after their None or not: [stream_le maxkey] bounds every key a stream yields, also
+   when it is polled again after its None), any number of next calls that return *)
 Theorem C14_ops_slots_bounded_partial : forall pop_min, admissible pop_min ->
   forall (maxkey : nat) ss st, Forall (stream_le maxkey) ss -> opreach pop_min ss st ->
   (length (heap (o_heap st)) + length (cur_slots (o_cur st)) <= length ss)%nat /\
@@ -140,7 +141,7 @@ Qed.
 
 (* a union of three overlapping streams with the leftmost-minimum heap: after the first key the
    heap holds 1 slot (stream 1 is exhausted), one is held as current, outs has 2 entries *)
-Definition ex_ss : list (list kv) := [[([97], 1); ([98], 2)]; [([97], 3)]; [([99], 4)]].
+Definition ex_ss : list instream := map inert [[([97], 1); ([98], 2)]; [([97], 3)]; [([99], 4)]].
 Example C14_nonvacuous_ops :
   match op_new ex_ss with
   | Ok st0 =>
@@ -156,7 +157,7 @@ Proof.
   destruct (op_new ex_ss) as [st0| |] eqn:E0; [|vm_compute in E0; discriminate..].
   destruct (union_next pop_min_left st0) as [[[it st]| |]|] eqn:E1.
   - split; [eapply or_union; [apply or_new; exact E0|exact E1]|].
-    split; [repeat (apply Forall_cons; [repeat (apply Forall_cons; [cbn; lia|]); apply Forall_nil|]); apply Forall_nil|].
+    split; [repeat (apply Forall_cons; [split; [repeat (apply Forall_cons; [cbv; lia|]); apply Forall_nil|discriminate]|]); apply Forall_nil|].
     vm_compute in E0. inversion E0; subst st0. vm_compute in E1. inversion E1; subst. vm_compute. repeat split.
   - vm_compute in E0. inversion E0; subst st0. vm_compute in E1. discriminate.
   - vm_compute in E0. inversion E0; subst st0. vm_compute in E1. discriminate.
